@@ -230,6 +230,8 @@ class RegexInclusion(Job):
         s = z3.String("s")
         if how == "fullmatch":
             pat = "^" + pat.lstrip("^").rstrip("$") + "\\Z"
+        elif how == "match" and not pat.startswith("^"):
+            pat = "^" + pat         # re.match anchors at the start
         L = RX.to_z3(pat)
         D = RX.ranges_re(RX.class_ranges(r"\d"))
         spec = z3.Plus(D)
